@@ -65,6 +65,18 @@ CHECKS = {
    text="Per generated bit-vector system (<= 5 state bits quick, <= 7 thorough) the oracle quantifies over all executions of every length up to the completeness threshold. Success with a reachable bad state or Fail without one is a soundness violation; Unknown/Err/panic/no answer that reproduces with a 4x budget violates the definite-answer clause; every Fail witness is validated by Q1/Q2 against the reference.",
    design_ref="DESIGN.md section 4 C10",
    note="Trusted: RefUnroll, z3 5.1 (oracle). Solver answer choices are enumerated (2 solvers, seeds, minimal vs full cores), not symbolic. cvc5 configurations are skipped for systems containing constant arrays (cvc5 1.0 limitations). Array states are outside (todo!() in pdr)."),
+ "C08": dict(
+   technique="SMT translation validation of the btor2 reader: every output/bad/constraint/init/next of the system returned by the real parse_str is proved equal, for all input/state valuations, to the value an independent line-by-line btor2 interpreter (RefBtor, working on the text) assigns to the referenced line",
+   category="translation_validation",
+   text="One generated file per operator x sort combination x operand kind (input/state/constant in 6 constant forms) x negation placement x sort-declaration order, plus seeded multi-line files and the shipped designs; inputs/states are linked by declaration order and their sorts compared. Rejection clause: derived ill-sorted variants (declared sort changed, operand of another width, operands of another common width) must not be accepted.",
+   design_ref="DESIGN.md section 4 C08",
+   note="Trusted: RefBtor (harness/src/refbtor.rs), RefSmt, solvers. Crashes on ill-sorted input are counted as observations (C18 is not claimed). Documented-unsupported operators are outside."),
+ "C19": dict(
+   technique="SMT validation of rewrite-rule instances: for every width/sign assignment satisfying the real side condition, both patterns are instantiated, lowered by the real from_arith and proved equal for all operand values; from_arith itself is proved equal to an independent reading of the Arith term; to_arith/from_arith round trip proved equivalent",
+   category="translation_validation",
+   text="All rules of create_rewrites(), every width parameter 1..=4 (5 thorough) exhaustively, both signs, plus sampled larger widths; per instance three unsat queries (lhs==rhs, from_arith(lhs)==meaning(lhs), from_arith(rhs)==meaning(rhs)). Conversion: seeded expressions of the convertible fragment, from_arith(to_arith(e)) has the same width and is solver-proved equivalent.",
+   design_ref="DESIGN.md section 4 C19",
+   note="Trusted: RefSmt, solvers, the harness's reading of the Arith language (extend by sign to max width, apply, truncate). Instances no solver decides are listed, not counted."),
 }
 ALL = [f"C{i:02d}" for i in range(1, 21)]
 m = {
